@@ -21,9 +21,10 @@ More == Loaded /\ l <= Len(H)
 
 \* the specification's configuration from the logged one (sets instead of lists; never gated)
 CfgOf(c) == [n |-> c.n, c |-> c.c, stopmode |-> c.stopmode, N |-> c.N, w |-> c.w, fb |-> c.fb, ctx0 |-> c.ctx0, cancel |-> TRUE,
-             outs |-> {"ok", "err", "eres"}, acts |-> {0, 1, 2}, preperr |-> TRUE, posterr |-> TRUE, gated |-> FALSE, strict |-> FALSE]
+             outs |-> {"ok", "err", "eres"}, acts |-> {0, 1, 2}, preperr |-> TRUE, posterr |-> TRUE, gated |-> FALSE, strict |-> FALSE,
+             after |-> "after" \in DOMAIN c /\ c.after]
 Empty == [n |-> 0, c |-> 0, stopmode |-> FALSE, N |-> 1, w |-> 0, fb |-> FALSE, ctx0 |-> FALSE, cancel |-> FALSE,
-          outs |-> {}, acts |-> {}, preperr |-> FALSE, posterr |-> FALSE, gated |-> FALSE, strict |-> FALSE]
+          outs |-> {}, acts |-> {}, preperr |-> FALSE, posterr |-> FALSE, gated |-> FALSE, strict |-> FALSE, after |-> FALSE]
 
 TInit == /\ i = 1 /\ l = 1
          /\ IF Len(Trace) >= 1 THEN InitWith(CfgOf(Trace[1].cfg)) ELSE InitWith(Empty)
@@ -41,6 +42,7 @@ Observable ==
      \/ Ev.ev = "execout" /\ (\E w \in Workers : PExecOut(w, [out |-> Ev.out, cancel |-> Ev.cancel])) /\ Matches1 /\ l' = l + 1
      \/ Ev.ev = "fb" /\ (\E w \in Workers : PFb(w, [out |-> Ev.out, cancel |-> Ev.cancel])) /\ Matches1 /\ l' = l + 1
      \/ Ev.ev = "bpost" /\ Post([out |-> Ev.out, act |-> Ev.act, cancel |-> Ev.cancel]) /\ Matches2 /\ l' = l + 2
+     \/ Ev.ev = "bpostagain" /\ LookAgain /\ Matches1 /\ l' = l + 1
 
 SilentW(w) == PLoop(w) \/ PWaitElapsed(w) \/ PWaitCancelled(w) \/ PAfter(w) \/ Pickup(w) \/ StopCheck(w) \/ CtxCheck(w) \/ Record(w)
 SilentMain == Submit \/ SubmitDone \/ WaitRet \/ SeqTop \/ SeqRecord
